@@ -37,6 +37,8 @@ META = {
          "Not covered (cannot be encoded): REST fetch concurrent with delivery (the read/clear pair sits between encoding/json and net/http calls), WebSocket clients (gorilla). The Core-level part (local destination is not forwarded; report only after hand-over) is not claimed yet.", "DESIGN.md 5/C07"),
  "C16": ("Bounded symbolic model checking of the CLA manager: all sequences (<= 4, thorough 6) of {start succeeds / fails-retry / fails-no-retry, stop} on one convergenceElem for permanent and non-permanent adapters and budgets 0..3 against a reference state machine; and the real Manager (handler goroutine, retry ticker in virtual time) over sequences of {register (also twice), retry tick, unregister} then Close: listed as sender exactly while the most recent Start succeeded and no Close followed (oracle = the mock adapter's own event log), single instance per address, permanent adapters retried every interval, every started adapter closed exactly once, no panic or deadlock.",
          "Bounds: one adapter, sequences of <= 3 (thorough 5) manager events, queue ttl 0..2. Outside: several adapters, peer-disappeared events through real CLAs, providers.", "DESIGN.md 5/C16"),
+ "C08": ("Bounded symbolic model checking of the real storage.Store / BundleItem / BundlePart code over atomic key-value and file models: every sequence of <= 2 (thorough 3) operations from {push bundle, push fragment (offsets/lengths from a small set), update pending flag, delete, expiry sweep before / after the lifetime, close+reopen} over two bundle IDs is compared after every step with a reference map (lookup, KnowsBundle, parts read back byte-identical, de-duplication, pending query, completeness = coverage); an operation aborted at each crash point inside Push / Delete followed by close and reopen leaves acknowledged records intact and the store usable; two goroutines pushing different fragments of one bundle, interleaved at every key-value/file call, both end up in the record.",
+         "The key-value store is modelled as atomic and durable per call, files as write-through; crash = the operation is aborted at the hook point (build tag verif) and the store closed and reopened - badger-internal and page-cache behaviour of a killed process is outside. Native replays run the same histories against real badger. One cooperative interleaving (switch at every store call) is explored, not all schedules.", "DESIGN.md 5/C08"),
 }
 
 NA_REASON = {}
